@@ -44,7 +44,7 @@ var (
 	opts    vh.Opts
 	edgeLen = []int{0, 1, 15, 16, 17, 31, 32, 33, 64, 100, 1000, 4096}
 	// anon model cases, in this order (quick tier takes a prefix)
-	anonLens = []int{0, 192, 1, 65, 16, 320, 33, 64, 129, 17, 448, 136, 63, 256, 193, 100, 1088, 4032,
+	anonLens = []int{0, 192, 1, 65, 16, 320, 33, 64, 129, 17, 448, 136, 63, 256, 193, 100, 1088, 576, 4032,
 		15, 31, 32, 127, 128, 191, 255, 257, 272, 576, 704, 1000, 2048, 4095, 4096}
 )
 
